@@ -20,6 +20,8 @@ pub enum Beh {
     ResponsiveFrom(u64),
     /// up for `a` ms, down for `b` ms, repeating
     Flapping(u64, u64),
+    /// responsive, except unreachable during [a, b)
+    DownBetween(u64, u64),
 }
 
 #[derive(Clone, Debug)]
@@ -31,6 +33,8 @@ pub struct Cfg {
     /// indices given to the builder as plain nodes / as routers (may overlap)
     pub nodes: Vec<usize>,
     pub routers: Vec<usize>,
+    /// router strings that resolve to nothing usable (wrong family, no port, garbage)
+    pub bad_routers: Vec<String>,
     /// instants at which bootstrapped() is called
     pub waiters: Vec<u64>,
     pub horizon_ms: u64,
@@ -69,6 +73,7 @@ pub fn build(cfg: &Cfg) -> (Scenario, Vec<Box<dyn Peer>>) {
             Beh::Garbage => r.mode = Mode::Garbage,
             Beh::Echo => r.mode = Mode::Echo,
             Beh::ResponsiveFrom(t) => r.up = vec![(*t, u64::MAX)],
+            Beh::DownBetween(a, b) => r.up = vec![(0, *a), (*b, u64::MAX)],
             Beh::Flapping(a, d) => {
                 let mut up = vec![];
                 let mut t = 0;
@@ -87,7 +92,7 @@ pub fn build(cfg: &Cfg) -> (Scenario, Vec<Box<dyn Peer>>) {
         read_only: cfg.read_only,
         announce_port: None,
         contacts: cfg.nodes.iter().map(|i| contact_addr(*i, cfg.v6)).collect(),
-        routers: cfg.routers.iter().map(|i| contact_addr(*i, cfg.v6).to_string()).collect(),
+        routers: cfg.routers.iter().map(|i| contact_addr(*i, cfg.v6).to_string()).chain(cfg.bad_routers.iter().cloned()).collect(),
         start_ms: 0,
     });
     for (k, t) in cfg.waiters.iter().enumerate() {
@@ -114,6 +119,7 @@ fn continuously_responsive_from(cfg: &Cfg) -> Option<u64> {
         .filter_map(|i| match &cfg.contacts[*i] {
             Beh::Responsive => Some(0),
             Beh::ResponsiveFrom(t) => Some(*t),
+            Beh::DownBetween(_, b) => Some(*b),
             _ => None,
         })
         .min()
@@ -123,7 +129,7 @@ pub fn judge(cfg: &Cfg, res: &RunResult) -> Vec<(String, String)> {
     let mut v = vec![];
     let node = node_addr(cfg.v6);
     let overlap = cfg.nodes.iter().any(|n| cfg.routers.contains(n));
-    let class = if overlap { "contact-both-node-and-router" } else if cfg.nodes.is_empty() && cfg.routers.is_empty() { "no-contacts" } else { "plain" };
+    let class = if overlap { "contact-both-node-and-router" } else if cfg.nodes.is_empty() && cfg.routers.is_empty() && cfg.bad_routers.is_empty() { "no-contacts" } else { "plain" };
     // (a) alive throughout
     for e in &res.api {
         let dead = match &e.kind {
@@ -146,7 +152,7 @@ pub fn judge(cfg: &Cfg, res: &RunResult) -> Vec<(String, String)> {
     if !res.panics.is_empty() && v.is_empty() {
         v.push((format!("node-task-panicked config={class}"), res.panics[0].clone()));
     }
-    let no_contacts = cfg.nodes.is_empty() && cfg.routers.is_empty();
+    let no_contacts = cfg.nodes.is_empty() && cfg.routers.is_empty() && cfg.bad_routers.is_empty();
     let first_response = res
         .wire
         .iter()
@@ -196,12 +202,16 @@ fn beh_json(b: &Beh) -> Value {
     match b {
         Beh::ResponsiveFrom(t) => json!({"from":t}),
         Beh::Flapping(a, d) => json!({"flap":[a,d]}),
+        Beh::DownBetween(a, b) => json!({"down":[a,b]}),
         other => json!(format!("{:?}", other)),
     }
 }
 fn beh_parse(v: &Value) -> Beh {
     if let Some(t) = v.get("from") {
         return Beh::ResponsiveFrom(t.as_u64().unwrap());
+    }
+    if let Some(f) = v.get("down") {
+        return Beh::DownBetween(f[0].as_u64().unwrap(), f[1].as_u64().unwrap());
     }
     if let Some(f) = v.get("flap") {
         return Beh::Flapping(f[0].as_u64().unwrap(), f[1].as_u64().unwrap());
@@ -215,7 +225,7 @@ fn beh_parse(v: &Value) -> Beh {
     }
 }
 fn cfg_json(c: &Cfg) -> Value {
-    json!({"v6":c.v6,"read_only":c.read_only,"contacts":c.contacts.iter().map(beh_json).collect::<Vec<_>>(),"nodes":c.nodes,"routers":c.routers,"waiters":c.waiters,"horizon_ms":c.horizon_ms,"latency":c.latency,"rng_seed":c.rng_seed})
+    json!({"v6":c.v6,"read_only":c.read_only,"contacts":c.contacts.iter().map(beh_json).collect::<Vec<_>>(),"nodes":c.nodes,"routers":c.routers,"bad_routers":c.bad_routers,"waiters":c.waiters,"horizon_ms":c.horizon_ms,"latency":c.latency,"rng_seed":c.rng_seed})
 }
 fn cfg_parse(v: &Value) -> Cfg {
     let us = |k: &str| -> Vec<usize> { v[k].as_array().map(|a| a.iter().map(|x| x.as_u64().unwrap() as usize).collect()).unwrap_or_default() };
@@ -225,6 +235,7 @@ fn cfg_parse(v: &Value) -> Cfg {
         contacts: v["contacts"].as_array().map(|a| a.iter().map(beh_parse).collect()).unwrap_or_default(),
         nodes: us("nodes"),
         routers: us("routers"),
+        bad_routers: v["bad_routers"].as_array().map(|a| a.iter().map(|x| x.as_str().unwrap().to_string()).collect()).unwrap_or_default(),
         waiters: v["waiters"].as_array().map(|a| a.iter().map(|x| x.as_u64().unwrap()).collect()).unwrap_or_default(),
         horizon_ms: v["horizon_ms"].as_u64().unwrap_or(60_000),
         latency: v["latency"].as_u64().unwrap_or(20),
@@ -233,7 +244,7 @@ fn cfg_parse(v: &Value) -> Cfg {
 }
 
 fn fates() -> Vec<Option<Fate>> {
-    vec![None, Some(Fate::Deliver(1)), Some(Fate::Deliver(480)), Some(Fate::Deliver(2_600)), Some(Fate::Drop)]
+    vec![None, Some(Fate::Deliver(1)), Some(Fate::Deliver(480)), Some(Fate::Deliver(2_600)), Some(Fate::Drop), Some(Fate::Duplicate(20, 20)), Some(Fate::Duplicate(20, 300))]
 }
 
 pub fn replay(v: &Value) -> i32 {
@@ -258,7 +269,7 @@ pub fn replay(v: &Value) -> i32 {
 
 pub fn configs(tier: Tier, seed: u64) -> Vec<Cfg> {
     let mut out = vec![];
-    let base = |contacts: Vec<Beh>, nodes: Vec<usize>, routers: Vec<usize>, waiters: Vec<u64>, horizon: u64| Cfg { v6: false, read_only: true, contacts, nodes, routers, waiters, horizon_ms: horizon, latency: 20, rng_seed: seed };
+    let base = |contacts: Vec<Beh>, nodes: Vec<usize>, routers: Vec<usize>, waiters: Vec<u64>, horizon: u64| Cfg { v6: false, read_only: true, contacts, nodes, routers, bad_routers: vec![], waiters, horizon_ms: horizon, latency: 20, rng_seed: seed };
     // no contacts at all
     for ro in [true, false] {
         for v6 in [false, true] {
@@ -316,6 +327,25 @@ pub fn configs(tier: Tier, seed: u64) -> Vec<Cfg> {
             out.push(base(vec![Beh::ResponsiveFrom(t); n], (0..n).collect(), vec![], vec![0, t / 2, t.saturating_sub(10), t + 10, t + 30_000], t + 700_000));
         }
     }
+    // waiters that arrive while the node has dropped out of the bootstrapped state: during the
+    // periodic re-bootstrap of a small network (every 250 ms across two cycles) and during an outage
+    // that follows a successful bootstrap
+    {
+        let mut c = base(vec![Beh::Responsive; 2], vec![0, 1], vec![], (0..40).map(|k| 4_900 + 250 * k).collect(), 120_000);
+        c.latency = 200;
+        out.push(c);
+        for (a, b) in [(10_000u64, 130_000u64), (8_000, 1_500_000)] {
+            out.push(base(vec![Beh::DownBetween(a, b)], vec![0], vec![], vec![0, a + 20_000, a + 60_000, b - 1_000, b + 5_000], b + 700_000));
+            out.push(base(vec![Beh::DownBetween(a, b); 3], vec![0, 1, 2], vec![], vec![a + 30_000, (a + b) / 2, b + 1], b + 700_000));
+        }
+    }
+    // routers that resolve to nothing usable: the node has contacts it cannot reach, so it is not bootstrapped
+    for (v6, bad) in [(false, vec!["[::1]:6881".to_string()]), (false, vec!["10.0.2.9".to_string()]), (true, vec!["10.0.2.9:6881".to_string()]), (false, vec!["not a router".to_string(), "[fd00::7]:1".to_string()])] {
+        let mut c = base(vec![], vec![], vec![], vec![0, 1_000, 60_000], 130_000);
+        c.v6 = v6;
+        c.bad_routers = bad;
+        out.push(c);
+    }
     // flapping contacts (no deadline asserted; liveness only)
     out.push(base(vec![Beh::Flapping(10_000, 120_000); 2], vec![0, 1], vec![], vec![0, 15_000, 200_000], tier.pick(600_000, 3_600_000)));
     out
@@ -347,8 +377,8 @@ pub fn run(tier: Tier) -> Report {
     let fs = fates();
     let mut levels = vec![];
     let picks: Vec<Cfg> = vec![
-        Cfg { v6: false, read_only: true, contacts: vec![Beh::Responsive], nodes: vec![0], routers: vec![], waiters: vec![0, 2_000], horizon_ms: 700_000, latency: 20, rng_seed: seed },
-        Cfg { v6: false, read_only: true, contacts: vec![Beh::Responsive, Beh::Silent, Beh::Responsive], nodes: vec![0, 1, 2], routers: vec![], waiters: vec![0], horizon_ms: 700_000, latency: 20, rng_seed: seed },
+        Cfg { v6: false, read_only: true, contacts: vec![Beh::Responsive], nodes: vec![0], routers: vec![], bad_routers: vec![], waiters: vec![0, 2_000], horizon_ms: 700_000, latency: 20, rng_seed: seed },
+        Cfg { v6: false, read_only: true, contacts: vec![Beh::Responsive, Beh::Silent, Beh::Responsive], nodes: vec![0, 1, 2], routers: vec![], bad_routers: vec![], waiters: vec![0], horizon_ms: 700_000, latency: 20, rng_seed: seed },
     ];
     for cfg in picks.iter().take(tier.pick(1, 2)) {
         let run_one = |prefix: &[usize]| -> RunOutcome {
